@@ -202,6 +202,15 @@ def ed25519_cert_tree(ca_tree, cert_kind=2):
     return cert_blob_tree(b'ssh-ed25519-cert-v01@openssh.com', [L(b'\x42' * 32, 'pk')], ca_tree, cert_kind)
 
 
+def sk_ed25519_blob_tree(pk=b'\x45' * 32, app=b'ssh:'):
+    # PROTOCOL.u2f: string "sk-ssh-ed25519@openssh.com", string public key, string application
+    return S([L(b'sk-ssh-ed25519@openssh.com', 'type'), L(pk, 'pk'), L(app, 'application')], 'sk_ed25519_key')
+
+
+def sk_ed25519_cert_tree(ca_tree, cert_kind=2, app=b'ssh:'):
+    return cert_blob_tree(b'sk-ssh-ed25519-cert-v01@openssh.com', [L(b'\x45' * 32, 'pk'), L(app, 'application')], ca_tree, cert_kind)
+
+
 def kexdh_reply_tree(hostkey_tree, msg=MSG_KEXDH_REPLY, f=b'\x07' * 32, sig_type=b'ssh-ed25519'):
     sig = S([L(sig_type, 'sigtype'), L(b'\x66' * 64, 'sigblob')])
     return S([Raw(bytes([msg]), 'type'), L(hostkey_tree, 'hostkey'), L(f, 'f'), L(sig, 'sig')], 'kexdh_reply')
